@@ -247,7 +247,8 @@ def main(argv):
                 cov = [g for g in gs if g.meta.get('family') == 'coverage']
                 gs = [g for g in gs if g.meta.get('family') != 'coverage'] + cov[sd % 3::3]
             return gs
-        return run_parser_property(prop, job=props.c15_job, N={'quick': 3, 'thorough': 5}[tier()], grammars=gsel,
+        from . import c15s
+        return run_parser_property(prop, job=props.c15_job, N={'quick': 3, 'thorough': 5}[tier()], grammars=gsel, side_jobs={'statelessness_side_condition': c15s.state_job},
                                    extra=lambda rs: dict(differential_comparisons=sum(r.get('comparisons', 0) for r in rs),
                                                          permutations=sum(r.get('permutations', 0) for r in rs),
                                                          byte_identical_generated_code=sum(r.get('identical_outputs', 0) for r in rs)))
@@ -279,6 +280,12 @@ def replay(path):
         bad = [v for v in r['viol'] if v['kind'] == body.get('kind')]
         print('recorded history:', body.get('grammar', '')[:500])
         print('REPRODUCED: ' + bad[0]['detail'][:500] if bad else 'the recorded kind of violation no longer occurs')
+        return 1 if bad else 0
+    if body.get('entry') == 'compile-twice':
+        from . import c15s
+        o = c15s.replay_twice(body['grammar']); print(json.dumps(o))
+        bad = o.get('same') is False
+        print('REPRODUCED: two runs of lelwel::compile in one process differ' if bad else 'both runs produce byte-identical generated code now')
         return 1 if bad else 0
     if prop == 'C19':
         from . import c19
